@@ -22,6 +22,8 @@
 // leaked blocks and the failing allocation are attributed to library functions.
 // Frees are quarantined (and poisoned) until the end of the run, so that a double free or a free
 // of an unknown block is always detected and never handed to the C library.
+#include <sys/time.h>
+#include <algorithm>
 #include "c14_alloc.inc"
 #include "c14_scen.inc"
 #include "c14_scen2.inc"
@@ -65,9 +67,11 @@ struct Outcome {
   long bad_free, bad_origin;
 };
 
+static long g_run_limit_s = 4;       // CPU seconds allowed to one run of one scenario (a hang becomes `crash ... HANG`)
 static Outcome one_run(const Scen& s, uint64_t seed, long k, int kind, std::string* sites = nullptr) {
   Outcome o; o.r.seed = seed; o.r.k = k; o.r.kind = kind;
   P->stage = 1;
+  { struct itimerval tv; memset(&tv, 0, sizeof tv); tv.it_value.tv_sec = g_run_limit_s; setitimer(ITIMER_VIRTUAL, &tv, nullptr); }
   fi::quarantine_on = true;
   fi::record_stacks = sites != nullptr; fi::fired_nbt = 0;
   fi::mark = fi::serial; fi::since_mark[0] = fi::since_mark[1] = 0;
@@ -78,6 +82,7 @@ static Outcome one_run(const Scen& s, uint64_t seed, long k, int kind, std::stri
     try { s.fn(R); }
     catch (...) { fi::armed = false; abandon_expensive_computations = nullptr; R.failed.push_back("exception_outside_armed_call_" + pplv::exc_class()); }
   }
+  { struct itimerval tv; memset(&tv, 0, sizeof tv); setitimer(ITIMER_VIRTUAL, &tv, nullptr); }
   P->stage = 0;
   o.cand[0] = fi::since_mark[0]; o.cand[1] = fi::since_mark[1];
   o.netd[0] = fi::net[0] - n0[0]; o.netd[1] = fi::net[1] - n0[1];
@@ -88,8 +93,11 @@ static Outcome one_run(const Scen& s, uint64_t seed, long k, int kind, std::stri
   if (sites) {
     // attribute the surviving blocks of this run and the failing allocation
     std::set<std::string> ss;
-    fi::PVec blocks;
-    for (fi::Map::iterator it = fi::live().begin(); it != fi::live().end(); ++it) if (it->second.serial > mk) blocks.push_back(it->first);
+    fi::PVec blocks, pool;
+    fi::pool_owned(pool);
+    std::sort(pool.begin(), pool.end());
+    for (fi::Map::iterator it = fi::live().begin(); it != fi::live().end(); ++it)
+      if (it->second.serial > mk && !std::binary_search(pool.begin(), pool.end(), it->first)) blocks.push_back(it->first);
     for (size_t i = 0; i < blocks.size(); ++i) {
       fi::Info inf = fi::live()[blocks[i]];
       ss.insert(std::string(inf.origin == 0 ? "new:" : "gmp:") + fi::site_of(inf.bt, inf.nbt));
@@ -123,7 +131,8 @@ int main(int argc, char** argv) {
   const char* only = pplv::arg_str(argc, argv, "--only", "");
   fi::persist = pplv::arg_long(argc, argv, "--persist", 0) != 0;
   fi::bt_event = pplv::arg_long(argc, argv, "--bt", -1);
-  long cpu_limit = pplv::arg_long(argc, argv, "--cpu", 30);
+  long cpu_limit = pplv::arg_long(argc, argv, "--cpu", 300);
+  g_run_limit_s = pplv::arg_long(argc, argv, "--run-limit", 4);
   if (last > (long)S.size()) last = (long)S.size();
   P = (Progress*)mmap(nullptr, sizeof(Progress), PROT_READ | PROT_WRITE, MAP_SHARED | MAP_ANONYMOUS, -1, 0);
   const char* kn = kind_name(kind);
@@ -175,6 +184,15 @@ int main(int argc, char** argv) {
           int hard = 0; for (int f = 0; f < o.r.failed.n; ++f) if (o.r.failed.txt[f][0] != '~') ++hard; else ++soft;
           bool notable = leak[0] + leak[1] > 0 || o.bad_free || o.bad_origin || hard > 0 || !o.r.fault_done;
           if (notable && sites.empty()) { (void)one_run(s, sseed, k, kind, &sites); ++reruns; }
+          if (s.name.compare(0, 6, "micro.") == 0) {
+            // one line per run for the protocols replayed against the allocation machines (Driver/C14.lean)
+            std::string rest = s.name.substr(6); size_t dot = rest.rfind('.');
+            std::string mach = dot == std::string::npos ? rest : rest.substr(0, dot), num = dot == std::string::npos ? "0" : rest.substr(dot + 1);
+            std::ostringstream t;
+            t << "mk " << mach << " " << num << " k=" << k << " of=" << n << " result=" << (o.r.completed ? "completed" : o.r.threw)
+              << " leak=" << leak[0] + leak[1] << " bad=" << o.bad_free + o.bad_origin << " invalid=" << (hard > 0 ? 1 : 0);
+            J.line(t.str());
+          }
           if (notable || onek > -2) {
             std::ostringstream t;
             t << "fault " << kn << " " << si << " " << s.name << " k=" << k << " of=" << n << " origin=" << (!o.r.fired ? "none" : kind != K_ALLOC ? "checkpoint" : o.r.fired_origin == 0 ? "new" : "gmp")
@@ -198,9 +216,25 @@ int main(int argc, char** argv) {
       if (WIFSIGNALED(st) || (WIFEXITED(st) && WEXITSTATUS(st) != 0)) {
         std::ostringstream c;
         c << "crash " << kn << " " << si << " " << s.name << " k=" << P->k << " of=" << P->total << " stage="
-          << (P->stage == 1 ? "setup" : P->stage == 2 ? "armed_call" : P->stage == 3 ? "post" : "runner") << " "
-          << (WIFSIGNALED(st) ? pplv::signal_name(WTERMSIG(st)) : "exit");
+          << (P->stage == 1 ? "setup" : P->stage == 2 ? "armed_call" : P->stage == 3 ? "post" : P->stage == 31 ? "post_OK" : P->stage == 32 ? "post_copy"
+              : P->stage == 33 ? "post_reuse" : P->stage == 34 ? "post_reassign" : P->stage == 35 ? "post_redo" : P->stage == 36 ? "post_arg_check"
+              : P->stage == 39 ? "post_destructors" : "runner") << " "
+          << (WIFSIGNALED(st) ? (WTERMSIG(st) == SIGVTALRM ? "HANG" : pplv::signal_name(WTERMSIG(st))) : "exit");
         J.line(c.str());
+        if (P->total >= 0 && P->k >= 0 && kind == K_ALLOC) {
+          // probe: where did the fault of the crashed run fire?
+          fflush(stdout);
+          pid_t pp = fork();
+          if (pp == 0) {
+            struct rlimit rl; rl.rlim_cur = 10; rl.rlim_max = 12; setrlimit(RLIMIT_CPU, &rl);
+            (void)one_run(s, sseed, -1, kind);
+            g_thrower_only = true;
+            std::string dummy;
+            (void)one_run(s, sseed, P->k, kind, &dummy);
+            _exit(0);
+          }
+          int st2 = 0; waitpid(pp, &st2, 0);
+        }
         if (++crashes > 200 || P->total < 0) break;      // a dry run crashed, or hopeless
         kstart = P->k + 1;
         continue;
